@@ -159,6 +159,13 @@ def corrupt(plan, texts, cut=None):
         i = endish[plan["a"] % len(endish)]
         return "\n".join(lines[:i] + lines[i + 1:]) + "\n", kind
     if kind == "dup-end" and endish:
+        # an END of a program unit, procedure, type or interface is duplicated: unbalanced for certain
+        structural = [i for i in endish if re.match(
+            r"\s*end\s*(module|submodule|program|subroutine|function|type|interface|block\s*data|procedure)?\b\s*\w*\s*(!.*)?$",
+            lines[i], re.I) and not re.match(r"\s*end\s*(if|do|select|where|forall|associate|block|enum|critical)\b", lines[i], re.I)]
+        if structural:
+            i = structural[plan["a"] % len(structural)]
+            return "\n".join(lines[: i + 1] + [lines[i]] + lines[i + 1:]) + "\n", "dup-end-structural"
         i = endish[plan["a"] % len(endish)]
         return "\n".join(lines[: i + 1] + [lines[i]] + lines[i + 1:]) + "\n", kind
     if kind == "drop-contains" and contains:
@@ -206,18 +213,21 @@ def gen_case(ch: Chooser, excl=()):
     texts = [B[k] for k in sorted(B)]
     bad = {}
     kinds = []
+    must_reject = {}
     for i, plan in enumerate(plans):
         content, kind = corrupt(plan, texts)
         # (sometimes below a directory whose name looks like console markup)
         sub = ["", "", "[old]/", "[bold]/"][plan["a"] % 4]
         bad[f"src/{sub}{plan['pos']}_bad{i}.f90"] = content
+        if kind == "dup-end-structural":
+            must_reject[f"src/{sub}{plan['pos']}_bad{i}.f90"] = "END statement"
         kinds.append(kind)
     names = sorted(P) + sorted(bad)
     order = [n for _, n in sorted(zip(order_key + [0] * len(names), names), key=lambda t: (t[0], t[1]))]
     if bad_first:
         order = sorted(bad) + [n for n in order if n not in bad]
     full_site = plans[0]["b"] % 6 == 0       # a sample of the cases also renders the whole site
-    return {"P": P, "bad": bad, "order": order, "site": full_site,
+    return {"P": P, "bad": bad, "order": order, "site": full_site, "must_reject": must_reject,
             "classes": ["P:" + pk, "B:" + bk] + ["corrupt:" + k for k in kinds] + (["leak-probe"] if probe else []) +
                        (["full-site"] if full_site else []),
             "nfilesP": len(P), "P_calls": [[r["scope"], r["expect"]] for r in P_refs]}
@@ -348,7 +358,7 @@ def _check(case) -> Result:
         signal.alarm(WATCHDOG_S)
         try:
             with fordapi.Sandbox(sfiles, prefix="vfw-c20s-") as sroot:
-                _site.build_site(sroot)
+                _site.build_site(sroot, argv=[])         # through the real command-line front end
                 res.evaluations += 1
                 if not (sroot / "doc" / "index.html").exists():
                     res.fail("site-not-written", "no index.html although the valid files were parsed")
@@ -364,6 +374,10 @@ def _check(case) -> Result:
             signal.signal(signal.SIGALRM, old)
     rejected = [b for b in bad if b not in reg1]
     accepted = [b for b in bad if b in reg1]
+    for b in accepted:
+        if case.get("must_reject", {}).get(b):
+            res.fail("unbalanced-end-accepted", f"{b} has a surplus {case['must_reject'][b]} but was documented "
+                                                f"(diagnostics: {out1[-200:]!r})")
     res.classes += ["rejected"] * len(rejected) + ["accepted"] * len(accepted)
     res.nontrivial = bool(rejected) and len(P) >= 2
     for b in rejected:
